@@ -119,14 +119,15 @@ func cmdCheck(args []string) int {
 	var jobs []job
 	var outOfReach []string
 	for _, fc := range fcs {
-		rep := L.Engine.Verify(fc)
-		reps = append(reps, rep)
-		if rep.Err != "" {
-			outOfReach = append(outOfReach, rep.Name+": "+rep.Err)
-			continue
-		}
-		for _, ob := range rep.Obls {
-			jobs = append(jobs, job{rep, ob})
+		for _, rep := range L.Engine.Verify(fc) {
+			reps = append(reps, rep)
+			if rep.Err != "" {
+				outOfReach = append(outOfReach, rep.Name+": "+rep.Err)
+				continue
+			}
+			for _, ob := range rep.Obls {
+				jobs = append(jobs, job{rep, ob})
+			}
 		}
 	}
 	workers := 8
